@@ -1715,6 +1715,18 @@ def replace_nested_loops_with_set_list_comp(source: str) -> str:
         if m := core.match_template(node.body, leaf_template):
             call_node = node.body[-1]
 
+            # The object that is extended must be the same one in every iteration
+            loop_variables = {
+                name.id
+                for comprehension in generators
+                for name in core.walk(comprehension.target, ast.Name)
+            }
+            if any(
+                name.id in loop_variables
+                for name in core.walk(m.outer_container_add_to, ast.Name)
+            ):
+                continue
+
             try:
                 new_loop_variable_name = next(unused_variable_name_iterator)
             except StopIteration:
